@@ -4,6 +4,7 @@ import (
 	"fmt"
 	"go/ast"
 	"go/types"
+	"os"
 	"strings"
 
 	"golang.org/x/tools/go/ssa"
@@ -266,8 +267,68 @@ func (fr *frame) havocCall(st *PState, name string, sig *types.Signature, args [
 		}
 	}
 	fr.top.havocs[ShortName(name)] = true
+	// A callee reaches chain state only through a context (or a store view, iterator, closure or interface value that
+	// may hold one) it is handed. When the only such handles among the arguments are sdk.Context values, only the state
+	// of THOSE contexts can change - in particular a callee working on a cache context cannot touch its parent.
+	var ctxs []T
+	onlyCtx := true
+	for i, a := range args {
+		if i == 0 && (strings.HasPrefix(name, "invoke ") || sig.Recv() != nil) {
+			// the receiver of a method (a keeper, a hooks wrapper, a value object): holds store keys, not contexts
+			fr.ex.Assumed["receivers of keeper / hook interfaces hold no sdk.Context (a havoced interface call changes only the state of the contexts it is handed)"] = true
+			continue
+		}
+		// static type of the parameter this argument is passed as
+		var pt types.Type
+		off := 0
+		if sig.Recv() != nil {
+			off = 1
+			if i == 0 {
+				pt = sig.Recv().Type()
+			}
+		}
+		if pt == nil && i-off >= 0 && i-off < sig.Params().Len() {
+			pt = sig.Params().At(i - off).Type()
+		}
+		switch a := a.(type) {
+		case T:
+			if a.Sort == SCtx {
+				ctxs = append(ctxs, a)
+			} else if a.Sort == SIface {
+				if !ctxFreeInterface(pt) {
+					onlyCtx = false
+				}
+			} else if a.Go != nil {
+				if _, isIface := a.Go.Underlying().(*types.Interface); isIface && !ctxFreeInterface(pt) {
+					onlyCtx = false
+				}
+			}
+		case *IfaceVal:
+			if !ctxFreeInterface(pt) {
+				onlyCtx = false
+			}
+		case *ViewVal, *ClosureVal, *IterVal, *WriteCacheVal, *FuncVal:
+			onlyCtx = false
+		}
+	}
+	if os.Getenv("VERIF_DEBUG_HAVOC") != "" {
+		fmt.Fprintf(os.Stderr, "havocCall %s touches=%v onlyCtx=%v ctxs=%d args=%d\n", name, touches, onlyCtx, len(ctxs), len(args))
+		for i, a := range args {
+			if t, ok := a.(T); ok {
+				fmt.Fprintf(os.Stderr, "   arg%d T sort=%s go=%v\n", i, t.Sort, t.Go)
+			} else {
+				fmt.Fprintf(os.Stderr, "   arg%d %T\n", i, a)
+			}
+		}
+	}
 	if touches {
-		st.kv = st.Fresh("kv_havoc", SKV)
+		if onlyCtx && len(ctxs) > 0 {
+			for _, c := range ctxs {
+				st.kv = st.Name("kv", Store(st.kv, App(SInt, "ctx_cell", c), st.Fresh("state_havoc", SState)))
+			}
+		} else {
+			st.kv = st.Fresh("kv_havoc", SKV)
+		}
 		for _, hn := range st.HeapNames() {
 			st.heaps[hn] = st.Fresh(hn+"_havoc", st.heaps[hn].Sort)
 		}
@@ -726,4 +787,32 @@ func (fr *frame) pureResults(st *PState, sig *types.Signature, qname string, arg
 		tv.Elems = append(tv.Elems, mkRes(i))
 	}
 	return tv
+}
+
+// ctxFreeInterface: an interface type none of whose methods takes or returns a context (a value object such as a
+// wrapped consensus key); the empty interface and unknown types are not.
+func ctxFreeInterface(t types.Type) bool {
+	if t == nil {
+		return false
+	}
+	it, ok := t.Underlying().(*types.Interface)
+	if !ok || it.NumMethods() == 0 {
+		return false
+	}
+	mentionsCtx := func(tu *types.Tuple) bool {
+		for i := 0; i < tu.Len(); i++ {
+			s := tu.At(i).Type().String()
+			if strings.HasSuffix(s, "types.Context") || s == "context.Context" || strings.HasPrefix(s, "func(") {
+				return true
+			}
+		}
+		return false
+	}
+	for i := 0; i < it.NumMethods(); i++ {
+		ms := it.Method(i).Type().(*types.Signature)
+		if mentionsCtx(ms.Params()) || mentionsCtx(ms.Results()) {
+			return false
+		}
+	}
+	return true
 }
